@@ -38,7 +38,7 @@ int vprop_fork = 1;
 int vprop_cpu_limit_s = 60;
 const char *vprop_class_names[V_NCLASS] = {
   "failed_compile_then_reuse", "take_code_then_recompile", "code_only_run_after_program_free", "reset", "parse_and_free",
-  "fatal_program", "long_loop", "ops_ge_20", "renamed_twice", NULL
+  "fatal_program", "long_loop", "ops_ge_20", "renamed_twice", "compiled_then_made_invalid", "orc_parse_full", NULL
 };
 
 typedef void (*WalkFn) (void *user, int region_index, void *write_ptr, void *exec_ptr, int region_size,
@@ -168,7 +168,7 @@ void vprop_case (VChoices *c, VResult *r)
     switch (op) {
       case 0: {                         /* new program */
         GenOpts go;
-        uint32_t kind = vc_pick (c, 8);
+        uint32_t kraw = vc_u32 (c), kind = kraw % 8;
         if (x->p) break;
         gen_opts_default (&go);
         go.allow_float = 0; go.allow_special_loads = 0; go.allow_acc = 0; go.max_insns = 12;
@@ -193,6 +193,14 @@ void vprop_case (VChoices *c, VResult *r)
           }
           r->classes |= 1u << 8;
         }
+        if (kind >= 6 && (kraw / 8) % 2 == 1) {
+          /* the program is compiled while it is still valid and only then gets its bad instruction: the next compilation is
+             fatal and has to drop the code of this one (upper bits of the same choice: earlier streams decode as before) */
+          OrcCompileResult r0 = orc_program_compile_full (x->p, orc_target_get_by_name ("sse"), orc_target_get_default_flags (orc_target_get_by_name ("sse")));
+          x->has_code = x->p->orccode != NULL;
+          x->compiled_native = ORC_COMPILE_RESULT_IS_SUCCESSFUL (r0);
+          r->classes |= 1u << 9;
+        }
         if (kind == 6) { orc_program_append_str (x->p, "addb", "nosuchvar", "d1", "d1"); x->valid = 0; r->classes |= 1u << 5; }
         if (kind == 7) { orc_program_append (x->p, "nosuchopcode", 0, 4, 5); x->valid = 0; r->classes |= 1u << 5; }
         v_desc (r, "op %d: new program in slot %d (%d insns%s)\n", i, slot, x->ps.nins, x->valid ? "" : ", deliberately invalid");
@@ -211,6 +219,7 @@ void vprop_case (VChoices *c, VResult *r)
         x->code_exec_dangling = 0;
         v_desc (r, "op %d: compile slot %d for %s -> %s\n", i, slot, tnames[t] ? tnames[t] : "none", v_result_name (res));
         if (ORC_COMPILE_RESULT_IS_FATAL (res) && x->valid && !x->sticky_error) { v_fail (r, "valid-program-fatal", "well-typed program got a fatal compile result %s", v_result_name (res)); }
+        if (ORC_COMPILE_RESULT_IS_FATAL (res) && x->p->orccode) v_fail (r, "fatal-result-keeps-code", "compile returned the fatal result %s but the program still has a code object attached (left over from an earlier compilation)", v_result_name (res));
         if (!ORC_COMPILE_RESULT_IS_SUCCESSFUL (res)) { r->classes |= 1u << 0; x->sticky_error = 1; }
         x->not_executable = ORC_COMPILE_RESULT_IS_SUCCESSFUL (res) && t == 3;   /* the C target's "code" is source text */
         break;
@@ -277,9 +286,19 @@ void vprop_case (VChoices *c, VResult *r)
         } else
           ps_generate (c, &go, &tmp, r);
         len = ps_sprint_orc (&tmp, text, sizeof text - 200);
-        if (vc_chance (c, 1, 3)) snprintf (text + len, 200, "frobnicate d1, s1\n.source 1\naddb d1\n");
-        v_stage (r, "parse and free");
-        orc_parse_code (text, &progs, &np, &errs, &ne);
+        {
+          uint32_t braw = vc_u32 (c);
+          if (braw % 3 >= 2) snprintf (text + len, 200, "frobnicate d1, s1\n.source 1\naddb d1\n");
+          v_stage (r, "parse and free");
+          if ((braw / 3) % 3 == 1) {
+            /* the older entry point: programs plus one log string */
+            char *log = NULL;
+            np = orc_parse_full (text, &progs, &log);
+            free (log);
+            r->classes |= 1u << 10;
+          } else
+            orc_parse_code (text, &progs, &np, &errs, &ne);
+        }
         for (k = 0; k < np; k++) { if (vc_chance (c, 1, 2)) orc_program_compile (progs[k]); orc_program_free (progs[k]); }
         free (progs);
         orc_parse_error_freev (errs);
